@@ -180,6 +180,52 @@ func extractTool(e *extractor) {
 			return true
 		})
 	}
+	// fileManager.Get: what identifies the package of a shared output file — the selectors on both sides of the
+	// "!=" comparison and the value stored for the first converter of the file
+	ident := ""
+	var getFn *ast.FuncDecl
+	if f := e.file("generator/filemanager.go"); f != nil {
+		for _, d := range f.Decls {
+			if fd, ok := d.(*ast.FuncDecl); ok && fd.Name.Name == "Get" && fd.Recv != nil {
+				getFn = fd
+			}
+		}
+	}
+	if fd := getFn; fd != nil {
+		var names []string
+		sel := func(x ast.Expr) string {
+			if c, ok := x.(*ast.CallExpr); ok {
+				x = c.Fun
+			}
+			if se, ok := x.(*ast.SelectorExpr); ok {
+				return se.Sel.Name
+			}
+			return "?"
+		}
+		ast.Inspect(fd.Body, func(n ast.Node) bool {
+			switch v := n.(type) {
+			case *ast.BinaryExpr:
+				if v.Op.String() == "!=" {
+					_, isNil := v.Y.(*ast.Ident)
+					_, isLit := v.Y.(*ast.BasicLit)
+					if !isNil && !isLit {
+						names = append(names, sel(v.X), sel(v.Y))
+					}
+				}
+			case *ast.KeyValueExpr:
+				if k, ok := v.Key.(*ast.Ident); ok && k.Name == "PackageID" {
+					names = append(names, sel(v.Value))
+				}
+			}
+			return true
+		})
+		if len(names) == 3 && names[0] == names[1] && names[1] == names[2] {
+			ident = names[0]
+		} else {
+			ident = strings.Join(names, "/")
+		}
+	}
+	fmt.Fprintf(&e.out, "(* generator/filemanager.go Get: the converter attribute stored for and compared with every later converter of the same file *)\nDefinition x_filemanager_identity : rstr := %s. (* %q *)\n", runes(ident), ident)
 	if len(headers) == 2 {
 		fmt.Fprintf(&e.out, "Definition x_header_comment : rstr := %s. (* %q *)\nDefinition x_build_prefix : rstr := %s. (* %q *)\n", runes(headers[0]), headers[0], runes(headers[1]), headers[1])
 	} else {
